@@ -212,7 +212,7 @@ fn worker_count() -> usize {
 
 /// Run one batch in parallel. Results are merged with commutative operations only, so the
 /// outcome does not depend on the number of workers or on thread timing.
-fn run_batch(property: &'static str, sc: &'static dyn Scenario, n: u64, tier: Tier, verif_seed: u64) -> Acc {
+fn run_batch(property: &'static str, report_prop: &'static str, sc: &'static dyn Scenario, n: u64, tier: Tier, verif_seed: u64) -> Acc {
     let next = AtomicU64::new(0);
     let total = Mutex::new(Acc::default());
     let workers = worker_count().max(1);
@@ -261,7 +261,7 @@ fn run_batch(property: &'static str, sc: &'static dyn Scenario, n: u64, tier: Ti
                         acc.samples.push((i, out.concrete.clone().unwrap_or_else(|| case.clone()), events));
                     }
                     for v in out.violations {
-                        if v.property == property {
+                        if v.property == report_prop {
                             let cnt = acc.tag_counts.entry(v.tag.clone()).or_insert(0);
                             *cnt += 1;
                             if *cnt <= 3 {
@@ -424,7 +424,8 @@ pub fn replay(def: &CheckDef, path: &str) -> i32 {
         return 2;
     };
     let out = sc.run(&case);
-    let mine: Vec<&Violation> = out.violations.iter().filter(|v| v.property == def.property).collect();
+    let report_prop = report_property(def);
+    let mine: Vec<&Violation> = out.violations.iter().filter(|v| v.property == report_prop).collect();
     let expect_tag = doc["expect"]["oracle"].as_str().unwrap_or("");
     let expect_hash = doc["expect"]["log_hash"].as_str().unwrap_or("");
     println!("replay {} scenario={} seed={} log_hash={:016x}", def.property, case.scenario, case.seed, out.log_hash);
@@ -455,8 +456,18 @@ pub fn replay(def: &CheckDef, path: &str) -> i32 {
     1
 }
 
+/// Triage aid: `VERIF_AS_PROPERTY=C13 ./check C05` runs C05's batches but reports (minimises,
+/// writes replays for) the violations of C13 observed in them. Never used by a registered command.
+fn report_property(def: &CheckDef) -> &'static str {
+    match std::env::var("VERIF_AS_PROPERTY") {
+        Ok(p) if !p.is_empty() => Box::leak(p.into_boxed_str()),
+        _ => def.property,
+    }
+}
+
 pub fn run_check(def: &CheckDef, tier: Tier, verif_seed: u64) -> i32 {
     let t0 = Instant::now();
+    let report_prop = report_property(def);
     println!("VERIF_SEED={verif_seed} property={} tier={} workers={}", def.property, tier.name(), worker_count());
     let root = verif_root();
     let known = load_known_findings(&format!("{root}/KNOWN_FINDINGS.txt"));
@@ -497,7 +508,7 @@ pub fn run_check(def: &CheckDef, tier: Tier, verif_seed: u64) -> i32 {
             continue;
         }
         let tb = Instant::now();
-        let acc = run_batch(def.property, sc, n, tier, verif_seed);
+        let acc = run_batch(def.property, report_prop, sc, n, tier, verif_seed);
         let sname = name_hash(sc.name());
         total_eval += acc.evaluations;
         total_runs += acc.runs;
@@ -539,7 +550,7 @@ pub fn run_check(def: &CheckDef, tier: Tier, verif_seed: u64) -> i32 {
             by_tag.entry(f.v.tag.clone()).or_default().push(f);
         }
         for (tag, fs) in by_tag {
-            if let Some(k) = known.iter().find(|k| k.property == def.property && tag.contains(&k.signature)) {
+            if let Some(k) = known.iter().find(|k| k.property == report_prop && tag.contains(&k.signature)) {
                 *known_hits.entry(k.id.clone()).or_insert(0) += acc.tag_counts.get(&tag).copied().unwrap_or(fs.len() as u64);
                 known_lines.insert(format!("KNOWN-FINDING: property={} id={} {} (e.g. {})", def.property, k.id, tag, fs[0].v.detail));
                 continue;
@@ -549,12 +560,12 @@ pub fn run_check(def: &CheckDef, tier: Tier, verif_seed: u64) -> i32 {
                 continue;
             }
             let f = fs[0];
-            let (min_case, h) = minimise(sc, &f.case, def.property, &tag);
-            let v = still_fails(sc, &min_case, def.property, &tag).map(|x| x.0).unwrap_or_else(|| f.v.clone());
+            let (min_case, h) = minimise(sc, &f.case, report_prop, &tag);
+            let v = still_fails(sc, &min_case, report_prop, &tag).map(|x| x.0).unwrap_or_else(|| f.v.clone());
             let name = format!("{}-{}-{:016x}-{:04x}", def.property, sc.name(), f.case.seed, name_hash(&tag) & 0xffff);
             let path = write_replay(&min_case, &v, h, verif_seed, &format!("{root}/replays"), &name);
             println!("  oracle={} at={} detail={} (steps: {} -> {})", v.tag, v.at, v.detail, f.case.steps.len(), min_case.steps.len());
-            violation_lines.push(format!("VIOLATION property={} replay={}", def.property, path));
+            violation_lines.push(format!("VIOLATION property={} replay={}", report_prop, path));
         }
     }
 
